@@ -69,7 +69,7 @@ extern _Bool __verif_crash_is_bug;  /* harness: inputs are valid, crash must be 
 extern unsigned long long __verif_last_load;     /* value returned by the most recent atomic load */
 extern const volatile void *__verif_last_load_p; /* ... and its location */
 extern int __verif_last_load_mo;                 /* ... and its memory order (-1: the load half of an RMW / store) */
-extern const volatile void *__verif_ptrloc; extern void *__verif_ptrobj;
+extern const volatile void *__verif_ptrloc; extern void *__verif_ptrobj; extern unsigned long long __verif_ptralt;
 
 #define VERIF_GHOST  __verif_n, __CPROVER_object_whole(__verif_log), __verif_crashed, __verif_last_load, __verif_last_load_p, __verif_last_load_mo
 #define LOGK(i) (__verif_log[i].kind)
@@ -158,8 +158,10 @@ static inline void __verif_trap(void)
 /* pointer-valued shared location (e.g. an MPSC tail): the harness may declare that it holds NULL
  * or one valid node; the loaded value is then that object's pointer (a pointer forged from an
  * integer has no object identity in CBMC) */
+/* __verif_ptralt (optional): a third, non-dereferenceable marker value the location may hold (e.g. the root queue MEDIATOR) */
 #define __VERIF_PTRFIX(p, v) ((const volatile void *)(p) == __verif_ptrloc && __verif_ptrloc != 0 ? \
-		(((unsigned long long)(v) & 1) == 0 ? (__typeof__(v))0 : (__typeof__(v))__verif_ptrobj) : (v))
+		((__verif_ptralt != 0 && ((unsigned long long)(v) & 3) == 2) ? (__typeof__(v))__verif_ptralt : \
+		 ((unsigned long long)(v) & 1) == 0 ? (__typeof__(v))0 : (__typeof__(v))__verif_ptrobj) : (v))
 #define __VERIF_LOADVAL(p) ({ \
 		_os_atomic_basetypeof(p) __vlv = (_os_atomic_basetypeof(p))__verif_nd(); \
 		__vlv = __VERIF_PTRFIX((p), __vlv); \
